@@ -74,6 +74,10 @@ def table : Kind → HandlerFacts
 /-- `GetEntry` looks at `.Denom` only, returns the first element whose denom is equal, else an error -/
 def lookupExpected : LookupFacts := ⟨["Denom"], 1, true, true⟩
 
+/-- `SetToken` reads only `.Denom` of stored entries, never writes into the incoming entry, stores it
+    verbatim (replace or append) -/
+def setTokenExpected : SetTokenFacts := ⟨["Denom"], 0, true, true⟩
+
 /-! ### judge predicates (on the implementation's own registry and outcome) -/
 
 /-- an accepted message held the permissions of the table -/
@@ -81,5 +85,10 @@ def acceptedOK (reg : Registry) (k : Kind) (m : Msg) (accepted : Bool) : Bool :=
 
 /-- a refused message left the state as it was (`same` = the state digests before and after agree) -/
 def refusedOK (accepted same : Bool) : Bool := accepted || same
+
+/-- an accepted registry message left in the store exactly what the edit says: `after` (the registry
+    as stored after it) is `applyEdit before edit` — in particular Register REPLACES the entry of
+    that denom by the message's entry (permissions included, also when the list is empty) -/
+def regStoredOK (before : Registry) (e : Edit) (after : Registry) : Bool := decide (applyEdit before e = after)
 
 end Sif.Spec.C12
